@@ -6,7 +6,7 @@ import itertools
 
 from .. import automata as A
 from .. import blocks, e1, impl, refmodel
-from ..chartgen import UNICODE_TRAPS, mk
+from ..chartgen import FORMAT_TRAPS, UNICODE_TRAPS, mk
 from ..linelang import BL
 
 ID = "C10"
@@ -67,7 +67,7 @@ def attribute():
     pats = A.capture_song()
     out = {}
     for f in ALL_FIELDS:
-        ms = [p for p in pats if p.match(canon(f))]
+        ms = [p for p in pats if A.applies(p, canon(f))]
         if len(ms) != 1:
             raise A.Unsupported("field %s: %d captured recognisers accept its canonical line" % (f, len(ms)))
         out[f] = ms[0]
@@ -238,6 +238,11 @@ def _twice(ctx, part):
                 lines = [canon(f, 1), second, canon(g, 4)] + (["Resolution = 192"] if g != "Resolution" else ['Album = "x"'])
             for o in itertools.permutations(range(len(lines))):
                 check_song(ctx, [lines[i] for i in o], "field %s given twice (arrangement %r with %s)" % (f, o, g))
+            if f in INT_FIELDS and f != "Resolution" and g == "Offset" or (f == "Offset" and g == "Artist"):
+                # "falsy" first values: a first copy saying 0 (or an empty-looking string) is still the first copy
+                for v1, v2 in (("0", "5"), ("00", "7"), ("5", "0")):
+                    for tail in ([], [canon(g, 4)]):
+                        check_song(ctx, ["Resolution = 192", "%s = %s" % (f, v1)] + tail + ["%s = %s" % (f, v2)], "field %s given twice, first value %s" % (f, v1))
 
 
 def _adversarial(ctx):
@@ -249,7 +254,7 @@ def _adversarial(ctx):
             check_song(ctx, ["Resolution = 192", '%s = "%s"' % (f, v)], "value of %s is the line of %s" % (f, g))
             if g != "Resolution":
                 check_song(ctx, ['%s = "%s"' % (f, v), "Resolution = 192", canon(g, 5)], "value of %s is the line of %s, followed by the real line" % (f, g))
-        for v in (" lead", "trail ", " both ", '""', '"q"', 'a""b', "x = y", f + " = z", "日本 ♪", "tab\tin", "a\ufeffb", "\ufeff", "\ufeffx\ufeff", "x\u00a0y", "\u200b", "日\u3000本", "e\u0301", "\U0001f3b8") + UNICODE_TRAPS:
+        for v in (" lead", "trail ", " both ", '""', '"q"', 'a""b', "x = y", f + " = z", "日本 ♪", "tab\tin", "a\ufeffb", "\ufeff", "\ufeffx\ufeff", "x\u00a0y", "\u200b", "日\u3000本", "e\u0301", "\U0001f3b8") + UNICODE_TRAPS + FORMAT_TRAPS:
             check_song(ctx, ["Resolution = 192", '%s = "%s"' % (f, v)], "adversarial value %r of %s" % (v, f))
     for f in INT_FIELDS:
         for v in ("0", "00", "7", "007", "99999999", "123456789012345678901234"):
